@@ -78,7 +78,10 @@ def build_probes(ctx, config):
     ser1 = C("pubkey_serialize", pk1, 33, 258).b(2); ser1u = C("pubkey_serialize", pk1, 65, 2).b(2)
     add("pubkey_create", sk1); add("pubkey_parse", ser1); add("pubkey_parse", ser1u, label="pubkey_parse_uncompressed"); add("pubkey_serialize", pk1, 33, 258); add("pubkey_serialize", pk1, 65, 2, label="pubkey_serialize_uncompressed")
     add("seckey_verify", sk1); add("seckey_negate", sk1); add("seckey_tweak_add", sk1, tw); add("seckey_tweak_mul", sk1, tw); add("pubkey_negate", pk1); add("pubkey_tweak_add", pk1, tw); add("pubkey_tweak_mul", pk1, tw)
-    add("pubkey_cmp", pk1, pk2); add("pubkey_combine", pk1 + pk2 + pk3, 3); add("pubkey_sort", pk1 + pk2 + pk3, 3); add("tagged_sha256", b"tag", msg); add("tagged_sha256", b"tag", b"", label="tagged_sha256_empty_msg")
+    add("pubkey_cmp", pk1, pk2); add("pubkey_combine", pk1 + pk2 + pk3, 3); add("pubkey_sort", pk1 + pk2 + pk3, 3); add("tagged_sha256", b"tag", msg);
+    # refused calls are part of the read-only API too: a sort / comparison given a zeroed (invalid) key reports illegal use through the callback,
+    # identically on every context and from every thread, and writes nothing to the shared context
+    add("pubkey_sort", pk1 + bytes(len(pk1)) + pk2 + pk3, 4, label="pubkey_sort_ILLEGAL_zeroed_key"); add("pubkey_cmp", pk1, bytes(len(pk1)), label="pubkey_cmp_ILLEGAL_zeroed_key"); add("tagged_sha256", b"tag", b"", label="tagged_sha256_empty_msg")
     sig = C("ecdsa_sign", msg, sk1, 0, None).b(1); c64 = C("sig_serialize_compact", sig).b(1); der = C("sig_serialize_der", sig, 80); derb = der.b(2)[:der.i(1)]
     add("ecdsa_sign", msg, sk1, 0, None); add("ecdsa_sign", msg, sk1, 1, aux, label="ecdsa_sign_rfc6979_extra"); add("ecdsa_verify", sig, msg, pk1); add("sig_parse_compact", c64); add("sig_parse_der", derb)
     add("sig_serialize_compact", sig); add("sig_serialize_der", sig, 80); add("sig_normalize", sig, 1); add("nonce_rfc6979", msg, sk1, None, aux, 0)
@@ -234,7 +237,7 @@ def wl_static(ctx, config, probes, gold):
     if sc is None: return
     slot = sc.i(0); sh = ctx.sh(config)
     for label, op, line in ctx.mine(probes):
-        if op in INTERNAL or op not in OP_API: continue
+        if op in INTERNAL or op not in OP_API or "_ILLEGAL_" in label: continue
         api = OP_API[op]; is_restricted = api in restricted
         ctx.check(api in allfn, "monitor:unknown_api_function", api, config)
         # (1) byte copy of the static context with counting callbacks
